@@ -423,7 +423,10 @@ pub(super) mod test {
         use crate::ir::pl::{
             Expr, ExprKind, Lineage, LineageColumn, LineageInput, TransformCall, TransformKind,
         };
+        #[cfg(not(prqlc_verif))]
         use std::collections::HashSet;
+        #[cfg(prqlc_verif)]
+        use prqlc_parser::verif_hash::HashSet;
 
         let input = LineageInput {
             id: 100,
